@@ -1,4 +1,6 @@
 Require Extraction.
 Require Import ExtrOcamlBasic.
-From QV Require Import Cli.Ctor Cli.WriteData.
-Extraction "c19.ml" parse_spec write_data.
+From Coq Require Import QArith Qreduction.
+From QV Require Import Cli.Ctor Cli.WriteData App.Merge Cli.MergeCmd.
+Definition row_rates (r : row) : Q * Q := (Qred (row_fr r), Qred (row_pr r)).
+Extraction "c19.ml" parse_spec write_data merge_cmd_records row_rates mkRaw mkPay JBad.
